@@ -1009,10 +1009,16 @@ def is_strictness_fulfilled(
                 or 'rse_omega' in args_in_statement
                 or 'rse_sigma' in args_in_statement
             ):
-                rse = results.relative_standard_errors
-                rse_theta = ArrayEvaluator(rse[rse.index.isin(get_thetas(model).names)])  # noqa
-                rse_omega = ArrayEvaluator(rse[rse.index.isin(get_omegas(model).names)])  # noqa
-                rse_sigma = ArrayEvaluator(rse[rse.index.isin(get_sigmas(model).names)])  # noqa
+                all_rse = results.relative_standard_errors
+                rse_theta = ArrayEvaluator(  # noqa
+                    all_rse[all_rse.index.isin(get_thetas(model).names)]
+                )
+                rse_omega = ArrayEvaluator(  # noqa
+                    all_rse[all_rse.index.isin(get_omegas(model).names)]
+                )
+                rse_sigma = ArrayEvaluator(  # noqa
+                    all_rse[all_rse.index.isin(get_sigmas(model).names)]
+                )
             if (
                 'final_zero_gradient_theta' in args_in_statement
                 or 'final_zero_gradient_omega' in args_in_statement
